@@ -779,6 +779,11 @@ func (x *Exec) branch(e *cfront.Node, st *State) (t, f []*State) {
 			d := x.describe(r.v)
 			ts.PathCond = append(ts.PathCond, d)
 			fs.PathCond = append(fs.PathCond, "!("+d+")")
+			for _, a := range x.atomsOf(r.v, e) {
+				ts.Atoms = append(ts.Atoms, a)
+				a.Holds = !a.Holds
+				fs.Atoms = append(fs.Atoms, a)
+			}
 		}
 		if ts != nil {
 			t = append(t, ts)
@@ -1032,4 +1037,48 @@ func (x *Exec) SortedAccess() []*Access {
 		return out[i].Node.ID < out[j].Node.ID
 	})
 	return out
+}
+
+func operandStr(v Val) (string, *int64) {
+	if c, ok := v.IsConst(); ok {
+		return fmt.Sprint(c), &c
+	}
+	switch v.K {
+	case VPtr:
+		return "nonnull:" + v.Reg.Name, nil
+	case VEnd:
+		return "data_end", nil
+	}
+	if v.Org != "" {
+		return v.Org, nil
+	}
+	return "?", nil
+}
+
+// atomsOf renders a branch value as structured atoms (single comparison or truthiness; negations folded).
+func (x *Exec) atomsOf(v Val, e *cfront.Node) []Atom {
+	pos := e.Pos()
+	var conv func(c *CondV, holds bool) []Atom
+	conv = func(c *CondV, holds bool) []Atom {
+		switch c.Op {
+		case "!":
+			return conv(c.X, !holds)
+		case "nz":
+			l, lc := operandStr(*c.A)
+			return []Atom{{Op: "nz", L: l, LC: lc, Holds: holds, Node: pos}}
+		case "&&", "||":
+			return nil
+		}
+		l, lc := operandStr(*c.A)
+		r, rc := operandStr(*c.B)
+		if c.A.K == VPtr && c.A.Reg.Kind == RPkt {
+			l = "pkt+" + formKey(c.A.L)
+		}
+		return []Atom{{Op: c.Op, L: l, R: r, LC: lc, RC: rc, Holds: holds, Node: pos}}
+	}
+	if v.Cond != nil {
+		return conv(v.Cond, true)
+	}
+	l, lc := operandStr(v)
+	return []Atom{{Op: "nz", L: l, LC: lc, Holds: true, Node: pos}}
 }
